@@ -247,12 +247,19 @@ def modComposition (E : Env) (a : Annotation) : Comp :=
 
 def dropZeros (c : Comp) : Comp := c.filter fun p => p.2 != 0
 
+/-- since repo commit fdf96ab `comp_mass` also resolves the modifications of a rule whose (non-terminal) target does not
+occur in the sequence — condensing drops such a rule — so an unresolvable one raises as it does in `mass` -/
+def absentRuleBad (E : Env) (a : Annotation) : Bool :=
+  match parseStaticMods a.static with
+  | .ok m => m.any fun p => !isTermKey p.1 && countOcc p.1 a.seq == 0 && p.2.any (isBad E)
+  | .error _ => false
+
 /-- `comp_mass(annotation, …)`: (composition, delta mass); `labels` = the isotope rules in force -/
 def compMassOf (E : Env) (a : Annotation) : Except Err (Comp × Rat) :=
   match condenseStatic a with
   | .error e => .error e
   | .ok c =>
-    if (allMods c).any (isBad E) then .error .valueError else
+    if (allMods c).any (isBad E) || absentRuleBad E a then .error .valueError else
     match (match c.isotope with | some l => parseIsotopeMods E.knownLabel l | none => .ok []) with
     | .error e => .error e
     | .ok lm =>
